@@ -48,21 +48,54 @@ def r1_collector(ctx):
         "Subkeys": (None, "not a value"), "Default": (None, "nothing to collect"),
     })
     if fn is not None:
-        t = flatp(show(fn.body))
-        frags = {
-            "component-children": "ParsedValue::Component{key:key,inner:inner}=>{keys.get_interpol_keys_mut.push_compkey.clone;inner.get_keys_innerkey_path,keys,false?}",
-            "ranges-branches": "ParsedValue::Rangesranges=>{ranges.get_keys_innerkey_path,keys?;letrange_type=ranges.get_type;keys.get_interpol_keys_mut.push_countkey_path,RangeOrPlural::Rangerange_type,ranges.count_key.clone?}",
-            "plurals-forms": "keys.get_interpol_keys_mut.push_countkey_path,RangeOrPlural::Plural,count_key.clone?;forvalueinforms.values{value.get_keys_innerkey_path,keys,false?}other.get_keys_innerkey_path,keys,false?",
-            "variable": "ParsedValue::Variable{key:key,formatter:formatter}=>{keys.get_interpol_keys_mut.push_varkey.clone,*formatter}",
-            "foreign-key": "ParsedValue::ForeignKeyforeign_key=>{foreign_key.borrow.as_inner\"get_keys_inner\".get_keys_innerkey_path,keys,false?}",
-            "bloc": "ParsedValue::Blocvalues=>{forvalueinvalues{value.get_keys_innerkey_path,keys,false?}}",
-            "top-literal": "ParsedValue::Literallit_typeifis_top=>{*keys=InterpolOrLit::Litlit_type.get_type}",
-        }
-        for k, frag in frags.items():
-            if has(t, frag):
-                r.inst("get_keys_inner#" + k, frag[:90])
+        from rules import sem
+        nb = sem.nbody(ast, fn)
+        _m, arms = sem.arms_of(nb, "ParsedValue::")
+
+        def arm(v, guard=None):
+            for a in arms.get(v, []):
+                b, g = sem.arm_body(a)
+                if guard is None or (g is not None and guard in sem.ftext(g)):
+                    return b
+            return None
+
+        def clause(key, ok, why):
+            if ok:
+                r.inst("get_keys_inner#" + key, why)
             else:
-                r.viol("R1:get_keys_inner#" + k, "collector changed for `%s`" % k, file=fn.file, line=fn.line)
+                r.viol("R1:get_keys_inner#" + key, "collector changed for `%s`: %s" % (key, why), file=fn.file, line=fn.line)
+        # Component: the component itself, then its children
+        b = arm("Component")
+        pc = sem.calls(b, r"^push_comp$") if b else []
+        gi = sem.calls(b, r"^get_keys_inner$") if b else []
+        clause("component-children", bool(pc) and pc[0][1] == ["key.clone"] and any(rc == "inner" and a[-1] == "false" for rc, a, _n in gi),
+               "push_comp(key.clone()) and inner.get_keys_inner(.., false)")
+        # Ranges: every branch, then the typed count
+        b = arm("Ranges")
+        gi = sem.calls(b, r"^get_keys_inner$") if b else []
+        pcs = sem.calls(b, r"^push_count$") if b else []
+        clause("ranges-branches", any(rc == "v0" for rc, a, _n in gi) and len(pcs) == 1 and pcs[0][1][1:] == ["RangeOrPlural::Rangev0.get_type", "v0.count_key.clone"],
+               "ranges.get_keys_inner(..) and push_count(.., Range(ranges.get_type()), ranges.count_key.clone())")
+        # Plurals: the count as Plural, every form, and `other`
+        b = arm("Plurals")
+        pcs = sem.calls(b, r"^push_count$") if b else []
+        okf, whyf = sem.visits_all(b, [r"^forms$"], r"\.get_keys_inner|get_keys_inner") if b else (False, "no arm")
+        gi = sem.calls(b, r"^get_keys_inner$") if b else []
+        other = any(rc == "other" for rc, a, _n in gi) or (b is not None and any("other" in sem.ftext(sem.canon_strip(x)) for it in sem.iterations(b) for x in it["extra"]))
+        clause("plurals-forms", len(pcs) == 1 and pcs[0][1][1:] == ["RangeOrPlural::Plural", "count_key.clone"] and okf and other,
+               "push_count(.., Plural, count_key.clone()); %s; other visited=%s" % (whyf, other))
+        b = arm("Variable")
+        pv = sem.calls(b, r"^push_var$") if b else []
+        clause("variable", len(pv) == 1 and pv[0][1] == ["key.clone", "*formatter"], "push_var(key.clone(), *formatter)")
+        b = arm("ForeignKey")
+        gi = sem.calls(b, r"^get_keys_inner$") if b else []
+        clause("foreign-key", any(re.match(r'^\w+\.borrow\.as_inner"get_keys_inner"$', rc or "") and a[-1] == "false" for rc, a, _n in gi),
+               "the resolved value is visited: <fk>.borrow().as_inner(..).get_keys_inner(.., false)")
+        b = arm("Bloc")
+        okb, whyb = sem.visits_all(b, [r"^v0$"], r"get_keys_inner") if b else (False, "no arm")
+        clause("bloc", okb, whyb)
+        b = arm("Literal", guard="is_top")
+        clause("top-literal", b is not None and sem.ftext(b).strip("{}") == "*keys=InterpolOrLit::Litv0.get_type", "a top-level literal sets the literal type")
     inner = [f for f in ast.fns_named(PR, "inner") if f.qual.endswith("Ranges::get_keys_inner::inner")]
     t = flatp(show(inner[0].body)) if inner else ""
     if same(t, "{for_,valueinv{value.get_keys_innerkey_path,keys,false?}Ok}"):
@@ -109,16 +142,17 @@ def r2_union(ctx, prog):
                 r.viol("R2:InterpolationKeys::%s#shrinks" % f.name, "calls %s: the collected set can lose members" % bad, file=f.file, line=f.line)
             else:
                 r.inst("InterpolationKeys::" + f.name, "uses " + ", ".join(sorted(set(calls))) if calls else "no mutation")
-    # resets
-    resets = []
-    for f in ast.fns:
-        if f.body and not f.is_test() and f.file.startswith("leptos_i18n_parser"):
-            t = flat(show(f.body))
-            for m in re.finditer(r"=InterpolOrLit::Interpol\(InterpolationKeys::default\(\)\)", t):
-                resets.append(f.qual)
-    want = sorted(["InterpolOrLit::get_interpol_keys_mut", "ParsedValue::merge"])
-    if sorted(set(resets)) != want:
-        r.viol("R2:resets", "the argument set is reset in %s (expected only %s)" % (sorted(set(resets)), want), file=PL)
+    # resets: who builds `InterpolOrLit::Interpol(..)` (MIR; a private helper with one caller counts as its caller)
+    import mustlib as M
+    resets = set()
+    for name, b in prog.bodies.items():
+        if b.crate != "leptos_i18n_parser":
+            continue
+        if any(True for _ in b.aggregates("locale::InterpolOrLit", "Interpol")):
+            resets.add(M.owner_of(prog, name).split("parse_locales::")[-1])
+    want = {"locale::InterpolOrLit::get_interpol_keys_mut", "parsed_value::ParsedValue::merge"}
+    if resets != want:
+        r.viol("R2:resets", "an (empty) argument set is built in %s (expected only %s)" % (sorted(resets), sorted(want)), file=PL)
     else:
         r.inst("resets", "only Lit -> Interpol(default) in get_interpol_keys_mut and on a literal type mismatch (nothing collected yet in both)")
     fn = ast.fn(PL, "get_interpol_keys_mut", impl_self="InterpolOrLit")
@@ -144,19 +178,36 @@ def r3_conflicts(ctx):
     if fn is None:
         r.missing("InterpolationKeys::push_count")
         return r
-    t = flatp(show(fn.body))
-    frags = {
-        "entry": "letvar_infos=self.variables.entrycount_key.or_default;matchvar_infos.range_count.replacety,ty{",
-        "ok": "None,_|SomeRangeOrPlural::Plural,RangeOrPlural::Plural=>Ok",
-        "same-range": "SomeRangeOrPlural::Rangeold,RangeOrPlural::Rangenewifold==new=>Ok",
-        "mix": "SomeRangeOrPlural::Plural,RangeOrPlural::Range_|SomeRangeOrPlural::Range_,RangeOrPlural::Plural=>{ErrError::RangeAndPluralsMix{",
-        "range-mismatch": "SomeRangeOrPlural::Rangeold,RangeOrPlural::Rangenew=>{ErrError::RangeTypeMissmatch{",
-    }
-    for k, frag in frags.items():
-        if has(t, frag):
-            r.inst("push_count#" + k, frag[:90])
+    from rules import sem, dtable
+    from rules.dtable import C, A
+    nb = sem.nbody(ctx.ast, fn)
+    if re.search(r"self\.variables\.entry\w+\.or_default\.range_count\.replace\w+", sem.ftext(nb)):
+        r.inst("push_count#entry", "the count variable's own record: self.variables.entry(count_key).or_default().range_count.replace(ty)")
+    else:
+        r.viol("R3:push_count#entry", "the previous count type is not read from (and the new one stored in) the count variable's own record", file=fn.file, line=fn.line)
+    params = fn.params()
+    tyname = params[2] if len(params) > 2 else "ty"
+    dom = [("previous", r"\.range_count\.replace" + tyname + "$", [C("None"), C("Some", C("Plural")), C("Some", C("Range", A("a"))), C("Some", C("Range", A("b")))]),
+           ("new", "^" + tyname + "$", [C("Plural"), C("Range", A("a"))])]
+
+    def classify(v):
+        if v[0] == "ctor" and v[1] == "Ok":
+            return "Ok"
+        if v[0] == "ctor" and v[1] == "Err" and v[2] and v[2][0][0] == "ctor":
+            return v[2][0][1]
+        return "?" + dtable.fmt(v)
+    names, tab = dtable.table(fn.body, dom, classify)
+    want = {"ok": ("Ok", lambda p, n: p == C("None") or (p == C("Some", C("Plural")) and n == C("Plural"))),
+            "same-range": ("Ok", lambda p, n: p == C("Some", C("Range", A("a"))) and n == C("Range", A("a"))),
+            "mix": ("RangeAndPluralsMix", lambda p, n: (p == C("Some", C("Plural")) and n[1] == "Range") or (p[1] == "Some" and p[2][0][1] == "Range" and n == C("Plural"))),
+            "range-mismatch": ("RangeTypeMissmatch", lambda p, n: p == C("Some", C("Range", A("b"))) and n == C("Range", A("a")))}
+    for k, (outcome, pred) in want.items():
+        rows = [(p, n) for (p, n) in tab if pred(p, n)]
+        bad = [(dtable.fmt(p), dtable.fmt(n), tab[(p, n)]) for (p, n) in rows if tab[(p, n)] != outcome]
+        if rows and not bad:
+            r.inst("push_count#" + k, "%d case(s) -> %s" % (len(rows), outcome))
         else:
-            r.viol("R3:push_count#" + k, "conflict table changed for `%s`" % k, file=fn.file, line=fn.line)
+            r.viol("R3:push_count#" + k, "conflict table changed for `%s`: (previous, new, outcome) = %s, expected %s" % (k, bad, outcome), file=fn.file, line=fn.line)
     return r
 
 
